@@ -367,7 +367,7 @@ func runC28Extra8(c *core.Check) {
 			for _, use := range *fa.Referrers() {
 				switch u := use.(type) {
 				case *ssa.UnOp:
-					if u.Op == token.MUL && core.Dominates(u, s.Instr) {
+					if u.Op == token.MUL && !core.Dominates(s.Instr, u) { // read on some way to the call (not behind it)
 						read[fa.Field] = true
 					}
 				case *ssa.Store:
@@ -434,5 +434,212 @@ func runC31Extra8(c *core.Check) {
 	}
 	if n < 2 || swaps == 0 {
 		c.Undecided(rule, "internal/balancer/wouldBlockBytes", 0, fmt.Sprintf("expected Add and Swap on tcpSender.wouldBlockBytes, found %d call(s), %d Swap", n, swaps))
+	}
+}
+
+// ---- C13-R10/R11 (F27, F28): protobuf wire types and error propagation ----------------
+
+func init() {
+	Extend("C13", runC13Extra8b,
+		Mutant{Name: "revert-F27-non-packed-unique-read-from-fixed64-field", File: "internal/receiver/protobuf.go", Rule: "C13-R10",
+			Old: "		if f == 6 && t == 0 { // non-packed int64 is a varint", New: "		if f == 6 && t == 1 {"},
+		Mutant{Name: "non-packed-value-read-from-varint-field", File: "internal/receiver/protobuf.go", Rule: "C13-R10",
+			Old: "		if f == 5 && t == 1 {", New: "		if f == 5 && t == 0 {"},
+		Mutant{Name: "revert-F28-malformed-packed-varint-accepted", File: "internal/receiver/protobuf.go", Rule: "C13-R11",
+			Old: "		if data, err = protoReadInt64(data, &val); err != nil {\n			return buf, err", New: "		if data, err = protoReadInt64(data, &val); err != nil {\n			return buf, nil"},
+		Mutant{Name: "malformed-tag-accepted", File: "internal/receiver/protobuf.go", Rule: "C13-R11",
+			Old: "	f, t, n := protowire.ConsumeTag(buf)\n	if n < 0 {\n		return 0, 0, buf, protobufError(n)", New: "	f, t, n := protowire.ConsumeTag(buf)\n	if n < 0 {\n		return 0, 0, buf, nil"})
+}
+
+var c13WireClass = map[string]int64{
+	"google.golang.org/protobuf/encoding/protowire.ConsumeVarint":  0,
+	"google.golang.org/protobuf/encoding/protowire.ConsumeFixed64": 1,
+	"google.golang.org/protobuf/encoding/protowire.ConsumeBytes":   2,
+	"google.golang.org/protobuf/encoding/protowire.ConsumeFixed32": 5,
+}
+
+func runC13Extra8b(c *core.Check) {
+	c.Decides += " R10 in the protobuf decoders a field reader is called only under the wire type it consumes (varint reader under type 0, fixed64 reader under type 1, length-delimited readers under type 2): a valid encoding is neither skipped nor read with the wrong reader; R11 no protobuf reader returns a nil error on a path on which protowire reported a negative length or an inner reader returned an error (malformed input is a parse error, never a batch of garbage)."
+	const r10 = "C13-R10"
+	c.Rule(r10, "K1 guard dominance", 8, "every call of a protoRead* reader from a field loop is dominated by (wire type == class of the protowire.Consume* the reader uses)")
+	var decoders []*ssa.Function
+	class := map[string]int64{}
+	for _, fn := range c.Prog.FuncsIn("internal/receiver") {
+		name := core.FuncName(fn)
+		short := name[strings.LastIndex(name, ".")+1:]
+		if !strings.HasPrefix(short, "protoRead") && !strings.HasPrefix(short, "protobufUnmarshal") && short != "protoSkipField" {
+			continue
+		}
+		decoders = append(decoders, fn)
+		if !strings.HasPrefix(short, "protoRead") || short == "protoReadTag" {
+			continue
+		}
+		kinds := map[int64]bool{}
+		for _, s := range core.Calls(fn) {
+			if k, ok := c13WireClass[core.CalleeName(s.Common())]; ok {
+				kinds[k] = true
+			}
+		}
+		if len(kinds) == 1 {
+			for k := range kinds {
+				class[name] = k
+			}
+		}
+	}
+	n := 0
+	for _, fn := range decoders {
+		name := core.FuncName(fn)
+		if !strings.Contains(name, ".protobufUnmarshal") {
+			continue
+		}
+		ord := map[string]int{}
+		for _, s := range core.Calls(fn) {
+			cn := core.CalleeName(s.Common())
+			want, isReader := class[cn]
+			if !isReader {
+				continue
+			}
+			// the wire type tested on the way: a fact (protoReadTag(...)#1 == K)
+			got, found := int64(-1), false
+			for _, g := range core.Facts(s.Block()) {
+				if len(g.Alts) != 1 {
+					continue
+				}
+				l := g.Alts[0]
+				if !l.Pol || l.Op != token.EQL {
+					continue
+				}
+				ex, isEx := l.X.(*ssa.Extract)
+				if !isEx || ex.Index != 1 {
+					continue
+				}
+				call, isCall := ex.Tuple.(*ssa.Call)
+				if !isCall || core.CalleeName(&call.Call) != "internal/receiver.protoReadTag" {
+					continue
+				}
+				if k, isK := l.Y.(*ssa.Const); isK && k.Value != nil && k.Value.Kind() == constant.Int {
+					got, _ = constant.Int64Val(k.Value)
+					found = true
+					break
+				}
+			}
+			if !found {
+				continue // not inside a field loop case (e.g. a length-delimited sub-message read directly)
+			}
+			n++
+			short := cn[strings.LastIndex(cn, ".")+1:]
+			ord[short]++
+			c.Require(got == want, r10, fmt.Sprintf("%s/%s#%d", name, short, ord[short]), s.Pos(), "reader called under its own wire type",
+				fmt.Sprintf("%s is called under wire type %d, but it consumes wire type %d: the valid encoding of this field (wire type %d) falls through to the skip branch and is silently dropped, and a field of wire type %d is read with the wrong reader", short, got, want, want, got))
+		}
+	}
+	if n == 0 {
+		c.Undecided(r10, "internal/receiver/proto-field-loops", 0, "no reader call under a wire-type test found")
+	}
+
+	const r11 = "C13-R11"
+	c.Rule(r11, "K1 error discipline", 11, "in protoRead*/protobufUnmarshal* no return with a nil error is reached under (n < 0) of protowire.Consume* or under (err != nil) of a reader")
+	m := 0
+	for _, fn := range decoders {
+		name := core.FuncName(fn)
+		for ri, ret := range core.Returns(fn) {
+			if len(ret.Results) == 0 {
+				continue
+			}
+			last := ret.Results[len(ret.Results)-1]
+			if !types.Identical(last.Type(), types.Universe.Lookup("error").Type()) {
+				continue
+			}
+			k, isK := last.(*ssa.Const)
+			if !isK || !k.IsNil() {
+				continue
+			}
+			m++
+			bad := ""
+			for _, g := range core.Facts(ret.Block()) {
+				if len(g.Alts) != 1 {
+					continue
+				}
+				l := g.Alts[0]
+				switch {
+				case l.Op == token.EQL && !l.Pol:
+					if yk, ok := l.Y.(*ssa.Const); ok && yk.IsNil() && types.Identical(l.X.Type(), types.Universe.Lookup("error").Type()) {
+						bad = l.String()
+					}
+				case l.Op == token.LSS && l.Pol:
+					if ex, ok := l.X.(*ssa.Extract); ok {
+						if call, ok := ex.Tuple.(*ssa.Call); ok && strings.Contains(core.CalleeName(&call.Call), "protowire.Consume") && core.IsConstInt(l.Y, 0) {
+							bad = l.String()
+						}
+					}
+				}
+			}
+			c.Require(bad == "", r11, fmt.Sprintf("%s/nil-error-return#%d", name, ri+1), ret.Pos(), "success is not reported on a failure path",
+				name+" returns a nil error under "+bad+": malformed input is accepted, the values decoded so far (and whatever the caller makes of the un-advanced buffer) become a batch instead of a parse error")
+		}
+	}
+	if m == 0 {
+		c.Undecided(r11, "internal/receiver/proto-readers", 0, "no successful return found in the protobuf readers")
+	}
+}
+
+// ---- C03-R9 (F29): state decoders overwrite the reused element --------------------------
+
+func init() {
+	Extend("C03", runC03Extra8b,
+		Mutant{Name: "revert-F29-string-arg-minmax-keeps-stale-fields", File: "internal/data_model/ch_arg_minmax_string.go", Rule: "C03-R9",
+			Old: "	*arg = ArgMinMaxStringFloat32{} // columns are decoded into reused elements, empty state has no fields to read\n", New: ""},
+		Mutant{Name: "revert-F29-int32-arg-minmax-keeps-stale-fields", File: "internal/data_model/ch_arg_minmax_int32.go", Rule: "C03-R9",
+			Old: "	*arg = ArgMinMaxInt32Float32{} // columns are decoded into reused elements, empty state has no fields to read\n", New: ""})
+}
+
+func runC03Extra8b(c *core.Check) {
+	c.Decides += " R9 the readers of the arg-min/arg-max aggregate states (ArgMinMaxStringFloat32.ReadFrom, ArgMinMaxInt32Float32.ReadFrom), which the API decodes into elements of a reused column slice, assign every field of the element on every path to a successful return (the encoding omits absent parts, so an element that is not cleared keeps the tag/value of the row decoded there before)."
+	const rule = "C03-R9"
+	c.Rule(rule, "K6 must-pass-through", 5, "for each field of the receiver struct: no path from entry to a nil-error return of ReadFrom avoids a store to that field (a store of the whole struct counts for all fields)")
+	n := 0
+	for _, name := range []string{"internal/data_model.(*ArgMinMaxStringFloat32).ReadFrom", "internal/data_model.(*ArgMinMaxInt32Float32).ReadFrom"} {
+		fn := need(c, rule, name)
+		if fn == nil || len(fn.Params) == 0 {
+			continue
+		}
+		recv := fn.Params[0]
+		pt, ok := recv.Type().Underlying().(*types.Pointer)
+		if !ok {
+			continue
+		}
+		st, ok := pt.Elem().Underlying().(*types.Struct)
+		if !ok {
+			continue
+		}
+		okReturn := func(in ssa.Instruction) bool {
+			ret, isRet := in.(*ssa.Return)
+			if !isRet || len(ret.Results) == 0 {
+				return false
+			}
+			k, isK := ret.Results[len(ret.Results)-1].(*ssa.Const)
+			return isK && k.IsNil()
+		}
+		for i := 0; i < st.NumFields(); i++ {
+			fi := i
+			n++
+			stores := func(in ssa.Instruction) bool {
+				s, isS := in.(*ssa.Store)
+				if !isS {
+					return false
+				}
+				if s.Addr == ssa.Value(recv) {
+					return true // *arg = T{...}
+				}
+				fa, isFA := s.Addr.(*ssa.FieldAddr)
+				return isFA && fa.X == ssa.Value(recv) && fa.Field == fi
+			}
+			p := core.ReachFromEntryWithout(fn, okReturn, stores)
+			c.Require(p == nil, rule, fmt.Sprintf("%s/field:%s", name, st.Field(i).Name()), fn.Pos(), "field assigned on every successful path",
+				name+" can return success without assigning "+st.Field(i).Name()+": the column decoders hand it elements of a reused slice, so the element keeps the "+st.Field(i).Name()+" of the row decoded at this index in the previous block (a host attribution that was never written)")
+		}
+	}
+	if n < 5 {
+		c.Undecided(rule, "internal/data_model/arg-minmax-readers", 0, fmt.Sprintf("expected 5 fields in the two reader structs, found %d", n))
 	}
 }
